@@ -818,6 +818,10 @@ impl Scanner for EntryScanner<'_> {
                                 .expect("failed to make root name"));
                         }
                     }
+                    // An empty label anywhere else is not allowed.
+                    if write == start + 1 {
+                        return Err(EntryError::bad_name());
+                    }
                     if write > 254 {
                         return Err(EntryError::bad_name());
                     }
